@@ -10,12 +10,14 @@
    [run] returns, per command, the LIST of reply frames the dispatcher wrote, so "exactly one reply"
    is a statement about the code paths and not built into a type.
 
-   Outside the model (exercised by the harness only): tungstenite/TCP, the parser/lifecycle/sort
-   threads and the draining join of `close`, the stream bookkeeping of process_file_context (C16) —
-   including its index arithmetic under the open option collect:"one_pass_streams", which does panic
-   (known finding `one_pass_streams_drained`, see Remote/DispatchTick.v for the checked witness). *)
+   The second half of the file is about the whole per-connection event loop (Remote/DispatchTick.v):
+   dispatcher + the index arithmetic of process_file_context between the commands.  There the property
+   is REFUTED for histories that open with collect:"one_pass_streams" (known finding
+   `one_pass_streams_drained`) and proved on the complement.
+   Outside the models (exercised by the harness only): tungstenite/TCP, the parser/lifecycle/sort
+   threads and the draining join of `close`, the content of the stream frames (C16). *)
 From Coq Require Import List NArith Bool Ascii String Sorted.
-From AdltV Require Import Base.Res Base.MachInt Remote.Dispatch Remote.DispatchProofs Exec.C15.
+From AdltV Require Import Base.Res Base.MachInt Remote.Dispatch Remote.DispatchProofs Remote.DispatchTick Remote.DispatchTickProofs Exec.C15.
 Import ListNotations.
 Open Scope string_scope.
 Open Scope N_scope.
@@ -109,35 +111,86 @@ Theorem C15_inner_default_unreachable : forall st t o st' w id,
   step st t o = Ok (st', w) -> ~ In (RErr (EInnerDefault id)) w.
 Proof. exact step_no_inner_default. Qed.
 
-(* non-vacuity / sanity: a concrete session through the executable model — open, a stream, a renewed
-   window, the old id is gone, the new one can be stopped once, a search without body is answered
-   err:, close, open again *)
+(* ------------------------------------------------------------------ the whole event loop
+   loop { process_file_context; read a frame; dispatch }  (Remote/DispatchTick.v): the passes of
+   process_file_context between the commands (TMsgs: messages arrived, TDone: a query finished) and the
+   pass right after every command, with their index arithmetic on all_msgs / filtered_msgs /
+   drained_all_msgs as possible panics. *)
+
+(* known finding: with the open option collect:"one_pass_streams" the loop does panic.  Witness (replayed
+   on the real server, corpus case kf_one_pass_late_stream): open one-pass, resume, the 10 messages of
+   the file arrive and are drained, a new stream is created -> `0 - drained_all_msgs` in the next pass *)
+Definition C15_one_pass_witness : list titem :=
+  [ it [] "open {..one_pass_streams..}" (oo (OpenOk COnePass false []));
+    it [] "resume" o0;
+    it [TMsgs 10] "stream {..}" (os (sk true 0 20 0 0 0 0));
+    it [] "pause" o0 ].
+Theorem C15_tick_one_pass_refuted :
+  run_loop (init_state 1) C15_one_pass_witness = Panic site_tick_slice_sub.
+Proof. vm_compute. reflexivity. Qed.
+
+(* second witness (corpus case kf_one_pass_window): a window change re-sends already drained messages *)
+Definition C15_one_pass_witness2 : list titem :=
+  [ it [] "open {..one_pass_streams..}" (oo (OpenOk COnePass false []));
+    it [] "stream {..}" (os (sk true 0 3 0 0 0 0));
+    it [] "resume" o0;
+    it [TMsgs 10] "stream_change_window 1 0,5" o0;
+    it [] "pause" o0 ].
+Theorem C15_tick_one_pass_window_refuted :
+  run_loop (init_state 1) C15_one_pass_witness2 = Panic site_tick_msg_sub.
+Proof. vm_compute. reflexivity. Qed.
+
+(* outside that class (no successful open with collect:one_pass_streams; [tick_inv]: nothing drained,
+   filtered_msgs point into all_msgs) the loop never panics, for every history, every arrival schedule,
+   every filter predicate: one reply per command, and the state is again the function of the replies *)
+Theorem C15_loop_one_reply_no_crash : forall (st : state) (h : list titem),
+  tick_inv st -> forallb (fun i => not_one_pass_open (t_orc i)) h = true ->
+  exists st' ws, run_loop st h = Ok (st', ws) /\ List.length ws = List.length h /\
+                 Forall (fun w => exists r : reply, w = [r]) ws /\
+                 abs st' = spec_run (abs st) (map proj_item h) ws.
+Proof.
+  intros st h I Hn. destruct (run_loop_ok h st I Hn) as [st' [ws [H [L [F [_ A]]]]]]. exists st', ws. auto.
+Qed.
+
+Theorem C15_loop_init_inv : forall first_id, tick_inv (init_state first_id).
+Proof. intros first_id. exact Logic.I. Qed.
+
+(* state consistency of every non-panicking run of the loop, one-pass or not: process_file_context never
+   changes what the dispatcher sees except through the reported completion of queries *)
+Theorem C15_loop_state_consistent : forall st h st' ws,
+  run_loop st h = Ok (st', ws) -> abs st' = spec_run (abs st) (map proj_item h) ws.
+Proof. intros st h st' ws H. exact (run_loop_abs h st st' ws H). Qed.
+
+(* non-vacuity / sanity: a concrete session through the executable model — open, a stream, a query that
+   finishes on its own, a renewed window, the old id is gone, the new one can be stopped once, a search
+   without body is answered err:, close, open again *)
 Example C15_nonvacuous :
   let ok_open := oo (OpenOk CAll false [("FileTransfer", true)]) in
   let h := [ it [] "stop 1" o0;
              it [] "open {..}" ok_open;
              it [] "open {..}" ok_open;
-             it [] "stream {}" (os (StreamOk false 0 20 0 0 0));
-             it [] "query {}" (os (StreamOk false 0 20 1 0 0));
+             it [TMsgs 10] "stream {}" (os (sk false 0 20 0 0 0 0));
+             it [] "query {}" (os (sk false 0 20 1 0 0 1));
              it [] "stream_change_window 1 2,+7" o0;
-             it [2] "stop 2" o0;
+             it [TMsgs 15; TDone 2] "stop 2" o0;
              it [] "stop 1" o0;
-             it [] "stream_search 3" (oi true 10);
-             it [] "stream_search 3 {}" (oi true 10);
+             it [] "stream_search 3" (oi true 15);
+             it [] "stream_search 3 {}" (oi true 15);
              it [] "stop 03 x" o0;
              it [] "stop +3" o0;
              it [] "plugin_cmd {..}" (oj (JGood "FileTransfer") false);
              it [] "close" o0;
              it [] " close" o0;
              it [] "open {..}" ok_open ] in
-  exists st', run (init_state 1) h =
+  forallb (fun i => not_one_pass_open (t_orc i)) h = true /\
+  exists st', run_loop (init_state 1) h =
     Ok (st', [ [RErr ENoFileOpened]; [ROk (OkOpen 1)]; [RErr EOpenAlready];
                [ROk (OkStream true 1 0 0 0)]; [ROk (OkStream false 2 1 0 0)];
                [ROk (OkWindow 1 3 2 7)]; [RErr (EIdNotFound 2)]; [RErr (EIdNotFound 1)];
                [RErr ESearchParams]; [ROk (OkSearch 3)]; [ROk (OkStop 3)]; [RErr (EIdNotFound 3)];
                [ROk OkPluginCmd]; [ROk OkClose]; [RUnknown " close"]; [ROk (OkOpen 1)] ])
     /\ abs st' = Some [] /\ st_next_id st' = 4.
-Proof. cbv zeta. eexists. split; [vm_compute; reflexivity|]. split; reflexivity. Qed.
+Proof. cbv zeta. split; [reflexivity|]. eexists. split; [vm_compute; reflexivity|]. split; reflexivity. Qed.
 
 Print Assumptions C15_one_reply_no_crash.
 Print Assumptions C15_unknown_notice.
@@ -149,4 +202,9 @@ Print Assumptions C15_stream_id_usable_iff.
 Print Assumptions C15_close_then_open.
 Print Assumptions C15_ids_fresh.
 Print Assumptions C15_inner_default_unreachable.
+Print Assumptions C15_tick_one_pass_refuted.
+Print Assumptions C15_tick_one_pass_window_refuted.
+Print Assumptions C15_loop_one_reply_no_crash.
+Print Assumptions C15_loop_init_inv.
+Print Assumptions C15_loop_state_consistent.
 Print Assumptions C15_nonvacuous.
